@@ -1,0 +1,69 @@
+//go:build verif
+
+package modepb
+
+// Machine-checked contracts for this package (comment-only; excluded from normal builds).
+
+//@ property C20
+//@ pure func mvOf(m) = cast(m, *traits.ModeValues)
+//@ pure func isMV(m) = istype(m, *traits.ModeValues) && cast(m, *traits.ModeValues) != nil
+//@ // well-formed mode configuration: every mode and value is present (protobuf never stores nil elements)
+//@ pure func valuesOK(vs) = len(vs) <= 2147483647 && (forall b int :: 0 <= b && b < len(vs) ==> vs[b] != nil)
+//@ pure func modesOK(ms) = ms != nil && (forall a int :: 0 <= a && a < len(ms.Modes) ==> ms.Modes[a] != nil && valuesOK(ms.Modes[a].Values))
+//@
+//@ // the values of the first mode with the given name, nil when there is none
+//@ func (*Model).AvailableValues(modeName) (res)
+//@   requires recv != nil && modesOK(recv.modes)
+//@   ensures [found] forall a int :: 0 <= a && a < len(recv.modes.Modes) && recv.modes.Modes[a].Name == modeName && (forall c int :: 0 <= c && c < a ==> recv.modes.Modes[c].Name != modeName) ==> res == recv.modes.Modes[a].Values
+//@   ensures [well-formed] valuesOK(res)
+//@   ensures [absent] (forall a int :: 0 <= a && a < len(recv.modes.Modes) ==> recv.modes.Modes[a].Name != modeName) ==> isnil(res)
+//@   modifies nothing
+//@   loop 0 (k):
+//@     invariant 0 <= k && k <= len(recv.modes.Modes)
+//@     invariant forall c int :: 0 <= c && c < k ==> recv.modes.Modes[c].Name != modeName
+//@     decreases len(recv.modes.Modes) - k
+//@
+//@ // ---- relative mode steps wrap around in both directions: from value i of a mode with n values a step of d leads to
+//@ // value (i + d) mod n, with the mathematical (non-negative) modulus ----
+//@ pure func firstAt(vs, i, name) = 0 <= i && i < len(vs) && vs[i].Name == name && (forall j int :: 0 <= j && j < i ==> vs[j].Name != name)
+//@
+//@ // the mathematical modulus, in [0, n) for n > 0 (% is Go's remainder, which takes the sign of the dividend; the sum is unbounded here)
+//@ pure func mmod(x, n) = x % n < 0 ? x % n + n : x % n
+//@ pure func modeAt(ms, a, name) = 0 <= a && a < len(ms.Modes) && ms.Modes[a].Name == name && (forall c int :: 0 <= c && c < a ==> ms.Modes[c].Name != name)
+//@ pure func written(now, name, before) = has(now, name) && (!old(has(before, name)) || now[name] != old(before[name]))
+//@
+//@ // o is the stored value, n the request that replaces it.  One relative entry per request is covered (stand-in for the
+//@ // range over the map; entries are independent of each other).
+//@ func (*ModelServer).relativeAdjustment$1(o, n)
+//@   requires isMV(o) && isMV(n) && mvOf(o) != mvOf(n) && m != nil && m.model != nil && modesOK(m.model.modes)
+//@   requires len(relative) <= 1
+//@   // (stated for the entries of the request that the interceptor wrote: the ghost enumeration behind a range over a map
+//@   // cannot be named in a contract, so "every key of relative is handled" is not expressible)
+//@   ensures [wrap] forall name string, a int, i int :: written(mvOf(n).Values, name, old(mvOf(n).Values)) && modeAt(m.model.modes, a, name) && old(has(mvOf(o).Values, name)) &&
+//@   |   firstAt(m.model.modes.Modes[a].Values, i, old(mvOf(o).Values[name])) ==>
+//@   |   mvOf(n).Values[name] == m.model.modes.Modes[a].Values[mmod(i + relative[name], len(m.model.modes.Modes[a].Values))].Name
+//@   ensures [first] forall name string, a int :: written(mvOf(n).Values, name, old(mvOf(n).Values)) && modeAt(m.model.modes, a, name) && !old(has(mvOf(o).Values, name)) ==>
+//@   |   mvOf(n).Values[name] == m.model.modes.Modes[a].Values[0].Name
+//@   ensures [unknown-current] forall name string, a int :: written(mvOf(n).Values, name, old(mvOf(n).Values)) && modeAt(m.model.modes, a, name) && old(has(mvOf(o).Values, name)) &&
+//@   |   (forall j int :: 0 <= j && j < len(m.model.modes.Modes[a].Values) ==> m.model.modes.Modes[a].Values[j].Name != old(mvOf(o).Values[name])) ==>
+//@   |   mvOf(n).Values[name] == m.model.modes.Modes[a].Values[0].Name
+//@   ensures [unknown-mode] forall name string :: (forall a int :: 0 <= a && a < len(m.model.modes.Modes) ==> m.model.modes.Modes[a].Name != name) ==> !written(mvOf(n).Values, name, old(mvOf(n).Values))
+//@   modifies traits.ModeValues.Values, M$string$string$has, M$string$string$val, M$string$string$len      // the request's value map
+//@   replay ModeRelativeWrap()
+//@   loop 0 (k):
+//@     unroll 1
+//@   loop 1 (k):
+//@     invariant 0 <= k && k <= len(values)
+//@     invariant forall j int :: 0 <= j && j < k ==> values[j].Name != oldValue
+//@     decreases len(values) - k
+//@
+//@ // ---- a model constructed with explicit modes uses them ----
+//@ func NewModelModes(modes) (res)
+//@   requires modesOK(modes)
+//@   requires forall a int :: 0 <= a && a < len(modes.Modes) ==> len(modes.Modes[a].Values) > 0      // a mode has at least one value
+//@   ensures [configured] res != nil && res.modes == modes
+//@   replay ModeExplicitModes()
+//@   loop 0 (k):
+//@     invariant 0 <= k && k <= len(modes.Modes)
+//@     invariant modeValues != nil && modeValues.Values != nil
+//@     decreases len(modes.Modes) - k
